@@ -5,13 +5,15 @@
 //
 // Purely syntactic (go/ast, no type checking).  Structural facts of the store-first discipline:
 //
-//	storeBeforeMemory f   every write to the caches in f comes after a store call whose error is checked and
-//	                      returned (`if err := ci.xxxFloatingIP(..); err != nil { …; return … }`)
-//	holdsCacheLock f      "Lock" / "RLock" / "none": `ci.cacheLock.<mode>()` + `defer ci.cacheLock.<un>()` are the
-//	                      first statements touching shared state and there is no other unlock in f
+//	storeBeforeMemory f   every write to the caches in f comes after a store call whose error is checked and makes the
+//	                      function return (or inside the failure branch of a delete)
+//	holdsCacheLock f      "Lock" / "RLock" / "none": the receiver's cacheLock is taken and its unlock deferred before the
+//	                      first access to shared state / store, and there is no other unlock in f
 //	configurePoolListsUnderLock, allocateSpecificAtomic, rollbackOnCreateFailure, rollbackCoversAllCreated,
 //	intersectionSeededOnFirstOnly, walkOverflowSafe, handlersMakeNoStoreCall, updateIsGetThenUpdate
 //
+// Shapes are recognised SEMANTICALLY (norm.go: logs dropped, if-init split, names taken from the code, error checks in both
+// polarities, helpers followed through summaries), so behaviour-preserving rewrites keep the facts.
 // A function that is missing makes the translator fail; a function whose shape is not the expected one makes the
 // fact `false` (the proofs that depend on it then fail to build, the harness still runs and looks for a failing input).
 package main
@@ -27,424 +29,6 @@ import (
 )
 
 func main() { fg.Run("ipam", gen) }
-
-func norm(s string) string { return strings.Join(strings.Fields(s), " ") }
-
-var storeCalls = []string{"ci.createFloatingIP", "ci.updateFloatingIP", "ci.deleteFloatingIP", "ci.listFloatingIPs"}
-
-func isStoreCall(p *fg.Parsed, c *ast.CallExpr) bool {
-	s := p.Src(c.Fun)
-	for _, n := range storeCalls {
-		if s == n {
-			return true
-		}
-	}
-	return false
-}
-
-func containsStoreCall(p *fg.Parsed, n ast.Node) bool {
-	found := false
-	ast.Inspect(n, func(x ast.Node) bool {
-		if c, ok := x.(*ast.CallExpr); ok && isStoreCall(p, c) {
-			found = true
-		}
-		return !found
-	})
-	return found
-}
-
-func endsWithReturn(b *ast.BlockStmt) bool {
-	if b == nil || len(b.List) == 0 {
-		return false
-	}
-	_, ok := b.List[len(b.List)-1].(*ast.ReturnStmt)
-	return ok
-}
-
-// guardedAt: statement i of list is a store call whose error is checked and returned.
-// shape A: if err := ci.xxx(..); err != nil { …; return … }
-// shape B: x, err := ci.xxx(..)   followed by   if err != nil { …; return … }
-func guardedAt(p *fg.Parsed, list []ast.Stmt, i int) bool {
-	switch s := list[i].(type) {
-	case *ast.IfStmt:
-		if s.Init != nil && containsStoreCall(p, s.Init) && norm(p.Src(s.Cond)) == "err != nil" && endsWithReturn(s.Body) {
-			return true
-		}
-	case *ast.AssignStmt:
-		if containsStoreCall(p, s) && i+1 < len(list) {
-			if f, ok := list[i+1].(*ast.IfStmt); ok && f.Init == nil && norm(p.Src(f.Cond)) == "err != nil" && endsWithReturn(f.Body) {
-				return true
-			}
-		}
-	}
-	return false
-}
-
-// hasGuard: the statement is a guarded store call or a loop whose body contains one (all creates precede the
-// cache update loop in AllocateInSubnetsAndIPRange).
-func hasGuard(p *fg.Parsed, list []ast.Stmt, i int) bool {
-	if guardedAt(p, list, i) {
-		return true
-	}
-	var body *ast.BlockStmt
-	switch s := list[i].(type) {
-	case *ast.ForStmt:
-		body = s.Body
-	case *ast.RangeStmt:
-		body = s.Body
-	}
-	if body == nil {
-		return false
-	}
-	return blockHasGuard(p, body)
-}
-
-func blockHasGuard(p *fg.Parsed, b *ast.BlockStmt) bool {
-	for i := range b.List {
-		if hasGuard(p, b.List, i) {
-			return true
-		}
-		// nested plain blocks / ifs inside a loop body
-		switch s := b.List[i].(type) {
-		case *ast.IfStmt:
-			if blockHasGuard(p, s.Body) {
-				return true
-			}
-		case *ast.BlockStmt:
-			if blockHasGuard(p, s) {
-				return true
-			}
-		}
-	}
-	return false
-}
-
-// isMemWrite: a statement (not descending into nested blocks) which writes the caches.
-func isMemWrite(p *fg.Parsed, s ast.Stmt) bool {
-	switch x := s.(type) {
-	case *ast.ExprStmt:
-		c, ok := x.X.(*ast.CallExpr)
-		if !ok {
-			return false
-		}
-		f := p.Src(c.Fun)
-		if f == "ci.syncCacheAfterCreate" || f == "ci.syncCacheAfterDel" {
-			return true
-		}
-		if sel, ok := c.Fun.(*ast.SelectorExpr); ok && sel.Sel.Name == "Assign" {
-			return true // v.Assign(..) / latest.Assign(..) on a cached object
-		}
-		if f == "delete" && len(c.Args) > 0 {
-			a := p.Src(c.Args[0])
-			return a == "ci.allocatedFIPs" || a == "ci.unallocatedFIPs"
-		}
-	case *ast.AssignStmt:
-		for _, l := range x.Lhs {
-			t := p.Src(l)
-			if strings.HasPrefix(t, "ci.allocatedFIPs") || strings.HasPrefix(t, "ci.unallocatedFIPs") || t == "ci.FloatingIPs" ||
-				strings.HasSuffix(t, ".Labels") && !strings.HasPrefix(t, "tmp") {
-				return true
-			}
-		}
-	}
-	return false
-}
-
-// storeBeforeMemory: every cache write has, in one of its enclosing blocks, an earlier statement with a guarded
-// store call; and the function has at least one cache write and one store call.
-func storeBeforeMemory(p *fg.Parsed, fd *ast.FuncDecl) bool {
-	writes, ok := 0, true
-	var walk func(b *ast.BlockStmt, guardedOutside bool)
-	walk = func(b *ast.BlockStmt, guardedOutside bool) {
-		guarded := guardedOutside
-		for i, s := range b.List {
-			if isMemWrite(p, s) {
-				writes++
-				if !guarded {
-					ok = false
-				}
-			}
-			// descend
-			switch x := s.(type) {
-			case *ast.IfStmt:
-				if !guardedAt(p, b.List, i) {
-					walk(x.Body, guarded)
-					if e, isB := x.Else.(*ast.BlockStmt); isB {
-						walk(e, guarded)
-					} else if e, isI := x.Else.(*ast.IfStmt); isI {
-						walk(&ast.BlockStmt{List: []ast.Stmt{e}}, guarded)
-					}
-				}
-			case *ast.ForStmt:
-				walk(x.Body, guarded)
-			case *ast.RangeStmt:
-				walk(x.Body, guarded)
-			case *ast.BlockStmt:
-				walk(x, guarded)
-			}
-			if hasGuard(p, b.List, i) {
-				guarded = true
-			}
-		}
-	}
-	walk(fd.Body, false)
-	return ok && writes > 0 && containsStoreCall(p, fd.Body)
-}
-
-// lock facts ---------------------------------------------------------------------------------------------------
-
-type lockInfo struct {
-	mode      string // Lock | RLock | none
-	lockIdx   int    // top-level statement index of the lock call
-	unlocks   int    // number of Unlock/RUnlock calls in the body
-	firstUse  int    // first top-level statement touching shared state / store
-	listIdx   int    // first top-level statement containing ci.listFloatingIPs (ConfigurePool)
-	lookupIdx int    // first top-level statement mentioning ci.unallocatedFIPs / ci.allocatedFIPs
-}
-
-func touchesShared(p *fg.Parsed, s ast.Stmt) bool {
-	t := p.Src(s)
-	if strings.Contains(t, "ci.cacheLock") {
-		return false
-	}
-	// the deferred log line of ConfigurePool reads the tables when the function returns, i.e. under the lock
-	if _, ok := s.(*ast.DeferStmt); ok {
-		return false
-	}
-	// a closure defined before the lock is taken but only called under it (insertSubnet)
-	if a, ok := s.(*ast.AssignStmt); ok && len(a.Rhs) == 1 {
-		if _, isFn := a.Rhs[0].(*ast.FuncLit); isFn {
-			return false
-		}
-	}
-	return strings.Contains(t, "ci.allocatedFIPs") || strings.Contains(t, "ci.unallocatedFIPs") ||
-		strings.Contains(t, "ci.FloatingIPs") || containsStoreCall(p, s) ||
-		strings.Contains(t, "ci.syncCacheAfter")
-}
-
-func lockFacts(p *fg.Parsed, fd *ast.FuncDecl) lockInfo {
-	li := lockInfo{mode: "none", lockIdx: -1, firstUse: -1, listIdx: -1, lookupIdx: -1}
-	for i, s := range fd.Body.List {
-		t := norm(p.Src(s))
-		if li.lockIdx < 0 && (t == "ci.cacheLock.Lock()" || t == "ci.cacheLock.RLock()") && i+1 < len(fd.Body.List) {
-			want := "defer ci.cacheLock.Unlock()"
-			mode := "Lock"
-			if t == "ci.cacheLock.RLock()" {
-				want, mode = "defer ci.cacheLock.RUnlock()", "RLock"
-			}
-			if norm(p.Src(fd.Body.List[i+1])) == want {
-				li.mode, li.lockIdx = mode, i
-			}
-		}
-		if li.firstUse < 0 && touchesShared(p, s) {
-			li.firstUse = i
-		}
-		if li.listIdx < 0 && strings.Contains(t, "ci.listFloatingIPs(") {
-			li.listIdx = i
-		}
-		if li.lookupIdx < 0 && !strings.Contains(t, "ci.cacheLock") {
-			if _, isDefer := s.(*ast.DeferStmt); !isDefer &&
-				(strings.Contains(t, "ci.unallocatedFIPs") || strings.Contains(t, "ci.allocatedFIPs")) {
-				li.lookupIdx = i
-			}
-		}
-	}
-	ast.Inspect(fd.Body, func(x ast.Node) bool {
-		if c, ok := x.(*ast.CallExpr); ok {
-			f := p.Src(c.Fun)
-			if f == "ci.cacheLock.Unlock" || f == "ci.cacheLock.RUnlock" {
-				li.unlocks++
-			}
-		}
-		return true
-	})
-	// the lock only counts if it precedes the first use and is released exactly once (the defer)
-	if li.lockIdx < 0 || li.unlocks != 1 || (li.firstUse >= 0 && li.firstUse < li.lockIdx) {
-		li.mode = "none"
-	}
-	return li
-}
-
-// rollback facts -----------------------------------------------------------------------------------------------
-
-// returns (present, coversAll)
-func rollbackFacts(p *fg.Parsed, fd *ast.FuncDecl) (bool, bool) {
-	var guard *ast.IfStmt
-	ast.Inspect(fd.Body, func(x ast.Node) bool {
-		if f, ok := x.(*ast.IfStmt); ok && guard == nil && f.Init != nil && strings.Contains(p.Src(f.Init), "ci.createFloatingIP(") {
-			guard = f
-		}
-		return guard == nil
-	})
-	if guard == nil {
-		return false, false
-	}
-	// the index variable and the slice of the enclosing create loop
-	var loop *ast.RangeStmt
-	ast.Inspect(fd.Body, func(x ast.Node) bool {
-		if r, ok := x.(*ast.RangeStmt); ok && r.Body.Pos() <= guard.Pos() && guard.End() <= r.Body.End() {
-			loop = r // innermost wins (Inspect is pre-order, so the last assignment is the innermost)
-		}
-		return true
-	})
-	if loop == nil || loop.Key == nil {
-		return false, false
-	}
-	idx, slice := p.Src(loop.Key), p.Src(loop.X)
-	var rb *ast.RangeStmt
-	for _, s := range guard.Body.List {
-		if r, ok := s.(*ast.RangeStmt); ok && strings.Contains(p.Src(r), "ci.deleteFloatingIP(") {
-			rb = r
-		}
-	}
-	if rb == nil {
-		return false, false
-	}
-	if rb.Key == nil || p.Src(rb.X) != slice || len(rb.Body.List) < 2 {
-		return true, false
-	}
-	j := p.Src(rb.Key)
-	// expected body: if j == i { break }  ;  if err := ci.deleteFloatingIP(slice[j]); err != nil { log }
-	first := norm(p.Src(rb.Body.List[0]))
-	okBreak := first == norm(fmt.Sprintf("if %s == %s { break }", j, idx))
-	okDelete := false
-	for _, s := range rb.Body.List[1:] {
-		if strings.Contains(norm(p.Src(s)), norm(fmt.Sprintf("ci.deleteFloatingIP(%s[%s])", slice, j))) {
-			okDelete = true
-		}
-	}
-	// nothing may skip an iteration
-	skips := false
-	ast.Inspect(rb.Body, func(x ast.Node) bool {
-		if b, ok := x.(*ast.BranchStmt); ok && b.Tok == token.CONTINUE {
-			skips = true
-		}
-		return true
-	})
-	nBreak := 0
-	ast.Inspect(rb.Body, func(x ast.Node) bool {
-		if b, ok := x.(*ast.BranchStmt); ok && b.Tok == token.BREAK {
-			nBreak++
-		}
-		return true
-	})
-	return true, okBreak && okDelete && !skips && nBreak == 1 && endsWithReturn(guard.Body)
-}
-
-// the memory update of AllocateInSubnetsAndIPRange comes after the loop with all creates
-func memoryAfterAllCreates(p *fg.Parsed, fd *ast.FuncDecl) bool {
-	createLoop, syncLoop := -1, -1
-	for i, s := range fd.Body.List {
-		if r, ok := s.(*ast.RangeStmt); ok {
-			t := p.Src(r)
-			if strings.Contains(t, "ci.createFloatingIP(") && createLoop < 0 {
-				createLoop = i
-			}
-			if strings.Contains(t, "ci.syncCacheAfterCreate(") && !strings.Contains(t, "ci.createFloatingIP(") && syncLoop < 0 {
-				syncLoop = i
-			}
-		}
-	}
-	return createLoop >= 0 && syncLoop > createLoop
-}
-
-// the rollback loop keeps an address allocated in memory when its delete failed with anything but NotFound:
-//   if err := ci.deleteFloatingIP(slice[j]); err != nil { …; if !apierrors.IsNotFound(err) { ci.syncCacheAfterCreate(fips[j]) } }
-func rollbackKeeps(p *fg.Parsed, fd *ast.FuncDecl) bool {
-	res := false
-	ast.Inspect(fd.Body, func(x ast.Node) bool {
-		f, ok := x.(*ast.IfStmt)
-		if !ok || f.Init == nil || !strings.Contains(p.Src(f.Init), "ci.deleteFloatingIP(") || norm(p.Src(f.Cond)) != "err != nil" {
-			return true
-		}
-		arg := ""
-		ast.Inspect(f.Init, func(y ast.Node) bool {
-			if c, ok := y.(*ast.CallExpr); ok && p.Src(c.Fun) == "ci.deleteFloatingIP" && len(c.Args) == 1 {
-				if ix, ok := c.Args[0].(*ast.IndexExpr); ok {
-					arg = p.Src(ix.Index)
-				}
-			}
-			return true
-		})
-		for _, s := range f.Body.List {
-			g, ok := s.(*ast.IfStmt)
-			if !ok || g.Init != nil || g.Else != nil || norm(p.Src(g.Cond)) != "!apierrors.IsNotFound(err)" {
-				continue
-			}
-			for _, t := range g.Body.List {
-				e, ok := t.(*ast.ExprStmt)
-				if !ok {
-					continue
-				}
-				c, ok := e.X.(*ast.CallExpr)
-				if !ok || p.Src(c.Fun) != "ci.syncCacheAfterCreate" || len(c.Args) != 1 {
-					continue
-				}
-				if ix, ok := c.Args[0].(*ast.IndexExpr); ok && arg != "" && p.Src(ix.Index) == arg {
-					res = true
-				}
-			}
-		}
-		return true
-	})
-	return res
-}
-
-// handleFIPUnassign returns (without touching the caches) unless the cached record carries the reserved label:
-//   if _, ok := allocated.Labels[constant.ReserveFIPLabel]; !ok { return … }   before   ci.syncCacheAfterDel(allocated)
-func unassignChecksReserved(p *fg.Parsed, fd *ast.FuncDecl) bool {
-	guard, free := -1, -1
-	for i, s := range fd.Body.List {
-		if f, ok := s.(*ast.IfStmt); ok && f.Init != nil && f.Else == nil &&
-			norm(p.Src(f.Init)) == "_, ok := allocated.Labels[constant.ReserveFIPLabel]" && norm(p.Src(f.Cond)) == "!ok" &&
-			endsWithReturn(f.Body) && guard < 0 {
-			guard = i
-		}
-		if strings.Contains(p.Src(s), "ci.syncCacheAfterDel(allocated)") && free < 0 {
-			free = i
-		}
-	}
-	return guard >= 0 && free > guard
-}
-
-// createFloatingIP hands the error of the Create call back unconditionally (no Get / Update / take-over on AlreadyExists):
-//   if _, err := ci.client…FloatingIPs().Create(…); err != nil { return err }     and no other client call in the function
-func createReturnsCreateError(p *fg.Parsed, fd *ast.FuncDecl) bool {
-	ok := false
-	ast.Inspect(fd.Body, func(x ast.Node) bool {
-		f, is := x.(*ast.IfStmt)
-		if !is || f.Init == nil || !strings.Contains(p.Src(f.Init), ".Create(") {
-			return true
-		}
-		if norm(p.Src(f.Cond)) == "err != nil" && f.Else == nil && len(f.Body.List) == 1 && norm(p.Src(f.Body.List[0])) == "return err" {
-			ok = true
-		}
-		return true
-	})
-	t := p.Src(fd.Body)
-	for _, other := range []string{".Get(", ".Update(", ".Patch(", ".Delete(", "updateFloatingIP(", "IsAlreadyExists"} {
-		if strings.Contains(t, other) {
-			ok = false
-		}
-	}
-	return ok && strings.Count(t, "ci.client") == 1
-}
-
-func intersectionSeed(p *fg.Parsed, fd *ast.FuncDecl) bool {
-	res := false
-	ast.Inspect(fd.Body, func(x ast.Node) bool {
-		f, ok := x.(*ast.IfStmt)
-		if !ok || f.Else == nil {
-			return true
-		}
-		if len(f.Body.List) == 1 && norm(p.Src(f.Body.List[0])) == "insertSubnet(poolIndexSet, subnetSet)" &&
-			strings.Contains(p.Src(f.Else), "Intersection(") {
-			res = norm(p.Src(f.Cond)) == "i == 0"
-		}
-		return true
-	})
-	return res
-}
 
 func walkSafe(p *fg.Parsed, fd *ast.FuncDecl) bool {
 	var loop *ast.ForStmt
@@ -462,7 +46,7 @@ func walkSafe(p *fg.Parsed, fd *ast.FuncDecl) bool {
 		return false
 	}
 	ctr, lim := p.Src(be.X), p.Src(be.Y)
-	if norm(p.Src(loop.Post)) != ctr+"++" {
+	if strings.Join(strings.Fields(p.Src(loop.Post)), "") != ctr+"++" && strings.Join(strings.Fields(p.Src(loop.Post)), "") != ctr+"+=1" {
 		return false
 	}
 	wide := map[string]bool{}
@@ -478,7 +62,13 @@ func walkSafe(p *fg.Parsed, fd *ast.FuncDecl) bool {
 	switch be.Op {
 	case token.LEQ:
 		// counter++ after counter == limit must not wrap: both 64 bit, limit converted from a 32-bit value
-		return wide[ctr] && wide[lim] && loop.Init == nil
+		if a, ok := loop.Init.(*ast.AssignStmt); ok && len(a.Lhs) == 1 && len(a.Rhs) == 1 {
+			r := p.Src(a.Rhs[0])
+			if p.Src(a.Lhs[0]) == ctr && (strings.HasPrefix(r, "uint64(") || strings.HasPrefix(r, "int64(")) {
+				wide[ctr] = true
+			}
+		}
+		return wide[ctr] && wide[lim]
 	}
 	return false
 }
@@ -492,106 +82,130 @@ func gen(repo string) (map[string]string, error) {
 	if err != nil {
 		return nil, err
 	}
+	content, err := genFrom(ic, sc)
+	if err != nil {
+		return nil, err
+	}
+	return map[string]string{"Ipam.lean": content}, nil
+}
+
+var mutators = []string{"AllocateSpecificIP", "AllocateInSubnet", "AllocateInSubnetWithKey", "ReserveIP", "UpdateAttr",
+	"Release", "ReleaseIPs", "AllocateInSubnetsAndIPRange", "ConfigurePool"}
+
+var queries = []string{"First", "ByIP", "ByPrefix", "ByKeyword", "ByKeyAndIPRanges", "NodeSubnet", "NodeSubnetsByIPRanges"}
+
+var handlers = []string{"handleFIPAssign", "handleFIPUnassign"}
+
+// facts computes every fact as (name -> value); the Lean text is rendered from it.
+type facts struct {
+	sbm   map[string]bool
+	locks map[string]string
+	bools map[string]bool
+}
+
+func compute(ic, sc *fg.Parsed) (*facts, error) {
+	w := newWorld(ic, sc)
+	need := append(append(append([]string{}, mutators...), queries...), handlers...)
+	need = append(need, "createFloatingIP", "updateFloatingIP", "deleteFloatingIP", "listFloatingIPs")
+	for _, m := range need {
+		if w.fn(m) == nil {
+			return nil, fmt.Errorf("method crdIpam.%s not found", m)
+		}
+	}
+	f := &facts{sbm: map[string]bool{}, locks: map[string]string{}, bools: map[string]bool{}}
+	for _, m := range mutators {
+		f.sbm[m] = w.fn(m).storeBeforeMemory()
+	}
+	lf := map[string]lockFact{}
+	for _, m := range append(append(append([]string{}, mutators...), queries...), handlers...) {
+		lf[m] = w.fn(m).lockFacts()
+		f.locks[m] = lf[m].mode
+	}
+	cp := w.fn("ConfigurePool")
+	cl := lf["ConfigurePool"]
+	listIdx := cp.firstIndex(cl.list, func(v map[string]bool, _, _ bool) bool { return v["list"] })
+	f.bools["configurePoolListsUnderLock"] = cl.mode == "Lock" && listIdx > cl.lockIdx
+	as := w.fn("AllocateSpecificIP")
+	al := lf["AllocateSpecificIP"]
+	lookIdx := as.firstIndex(al.list, func(_ map[string]bool, _, sh bool) bool { return sh })
+	f.bools["allocateSpecificAtomic"] = al.mode == "Lock" && lookIdx > al.lockIdx
+	ar := w.fn("AllocateInSubnetsAndIPRange")
+	rf := ar.rollbackFacts()
+	f.bools["rollbackOnCreateFailure"] = rf.present
+	f.bools["rollbackCoversAllCreated"] = rf.covers
+	f.bools["rollbackKeepsUndeletedInMemory"] = rf.keeps
+	f.bools["memoryUpdatedAfterAllCreates"] = ar.memoryAfterAllCreates()
+	f.bools["intersectionSeededOnFirstOnly"] = w.fn("NodeSubnetsByIPRanges").intersectionSeededOnFirst()
+	wfd, err := ic.Fn("", "walkIPRanges")
+	if err != nil {
+		return nil, err
+	}
+	f.bools["walkOverflowSafe"] = walkSafe(ic, wfd)
+	f.bools["unassignEventChecksReserved"] = w.fn("handleFIPUnassign").unassignChecksReserved()
+	noStore := true
+	for _, m := range handlers {
+		if len(w.sum[m].verbs) > 0 {
+			noStore = false
+		}
+	}
+	f.bools["handlersMakeNoStoreCall"] = noStore
+	f.bools["createReturnsCreateError"] = w.fn("createFloatingIP").createReturnsCreateError()
+	f.bools["updateIsGetThenUpdate"] = w.fn("updateFloatingIP").getAssignUpdate()
+	return f, nil
+}
+
+var boolOrder = []struct{ name, why string }{
+	{"configurePoolListsUnderLock", "ConfigurePool takes cacheLock (deferred unlock) before it lists the store"},
+	{"allocateSpecificAtomic", "AllocateSpecificIP holds the write lock from the lookup of the free address to the cache update"},
+	{"rollbackOnCreateFailure", "AllocateInSubnetsAndIPRange deletes already created objects when a create fails"},
+	{"rollbackCoversAllCreated", "the rollback loop visits every index below the failing one and returns the error afterwards"},
+	{"rollbackKeepsUndeletedInMemory", "an address whose rollback delete failed with anything but NotFound is put into the allocated table"},
+	{"memoryUpdatedAfterAllCreates", "the cache update loop of AllocateInSubnetsAndIPRange follows the loop with all creates"},
+	{"intersectionSeededOnFirstOnly", "NodeSubnetsByIPRanges seeds the intersection on the first range list only"},
+	{"walkOverflowSafe", "walkIPRanges counts in 64 bits, so `<= last` terminates at 255.255.255.255"},
+	{"unassignEventChecksReserved", "handleFIPUnassign only releases a cached record which still carries the reserved label"},
+	{"handlersMakeNoStoreCall", "handleFIPAssign / handleFIPUnassign only touch the caches"},
+	{"createReturnsCreateError", "createFloatingIP returns the error of the Create call unconditionally: an existing object is never fetched or taken over"},
+	{"updateIsGetThenUpdate", "updateFloatingIP = Get, assign, Update (two store calls, labels kept)"},
+}
+
+func genFrom(ic, sc *fg.Parsed) (string, error) {
+	f, err := compute(ic, sc)
+	if err != nil {
+		return "", err
+	}
 	var b strings.Builder
 	b.WriteString(fg.Header("IPAM (M3): structural facts of crdIpam (store before memory, lock scopes, rollback, reload atomicity)",
 		"pkg/ipam/floatingip/ipam_crd.go", "pkg/ipam/floatingip/store_crd.go"))
 	b.WriteString("namespace Galaxy.Generated.Ipam\n\n")
-
-	mutators := []string{"AllocateSpecificIP", "AllocateInSubnet", "AllocateInSubnetWithKey", "ReserveIP", "UpdateAttr",
-		"Release", "ReleaseIPs", "AllocateInSubnetsAndIPRange", "ConfigurePool"}
 	b.WriteString("/-- per mutator: every cache write is preceded by a store call whose error is checked and returned -/\n")
 	b.WriteString("def storeBeforeMemory : List (String × Bool) := [\n")
-	fds := map[string]*ast.FuncDecl{}
 	for i, m := range mutators {
-		fd, err := ic.Fn("crdIpam", m)
-		if err != nil {
-			return nil, err
-		}
-		fds[m] = fd
 		sep := ","
 		if i == len(mutators)-1 {
 			sep = ""
 		}
-		fmt.Fprintf(&b, "  (%s, %s)%s\n", fg.LeanStr(m), fg.LeanBool(storeBeforeMemory(ic, fd)), sep)
+		fmt.Fprintf(&b, "  (%s, %s)%s\n", fg.LeanStr(m), fg.LeanBool(f.sbm[m]), sep)
 	}
 	b.WriteString("]\n\n")
-
-	methods := map[string]*fg.Parsed{}
-	for _, m := range append(append([]string{}, mutators...), "First", "ByIP", "ByPrefix", "ByKeyword", "ByKeyAndIPRanges",
-		"NodeSubnet", "NodeSubnetsByIPRanges") {
-		methods[m] = ic
-	}
-	methods["handleFIPAssign"] = sc
-	methods["handleFIPUnassign"] = sc
-	names := make([]string, 0, len(methods))
-	for m := range methods {
+	names := make([]string, 0, len(f.locks))
+	for m := range f.locks {
 		names = append(names, m)
 	}
 	sort.Strings(names)
 	b.WriteString("/-- per method: mode of `cacheLock` held (with `defer` unlock) from before the first access to shared state -/\n")
 	b.WriteString("def holdsCacheLock : List (String × String) := [\n")
-	locks := map[string]lockInfo{}
 	for i, m := range names {
-		fd, err := methods[m].Fn("crdIpam", m)
-		if err != nil {
-			return nil, err
-		}
-		fds[m] = fd
-		li := lockFacts(methods[m], fd)
-		locks[m] = li
 		sep := ","
 		if i == len(names)-1 {
 			sep = ""
 		}
-		fmt.Fprintf(&b, "  (%s, %s)%s\n", fg.LeanStr(m), fg.LeanStr(li.mode), sep)
+		fmt.Fprintf(&b, "  (%s, %s)%s\n", fg.LeanStr(m), fg.LeanStr(f.locks[m]), sep)
 	}
 	b.WriteString("]\n\n")
-
-	def := func(name string, v bool, why string) {
-		fmt.Fprintf(&b, "/-- %s -/\ndef %s : Bool := %s\n\n", why, name, fg.LeanBool(v))
+	for _, d := range boolOrder {
+		fmt.Fprintf(&b, "/-- %s -/\ndef %s : Bool := %s\n\n", d.why, d.name, fg.LeanBool(f.bools[d.name]))
 	}
-	cp := locks["ConfigurePool"]
-	def("configurePoolListsUnderLock", cp.mode == "Lock" && cp.listIdx > cp.lockIdx && cp.listIdx >= 0,
-		"ConfigurePool takes cacheLock (deferred unlock) before it lists the store")
-	as := locks["AllocateSpecificIP"]
-	def("allocateSpecificAtomic", as.mode == "Lock" && as.lookupIdx > as.lockIdx,
-		"AllocateSpecificIP holds the write lock from the lookup of the free address to the cache update")
-	present, covers := rollbackFacts(ic, fds["AllocateInSubnetsAndIPRange"])
-	def("rollbackOnCreateFailure", present, "AllocateInSubnetsAndIPRange deletes already created objects when a create fails")
-	def("rollbackCoversAllCreated", covers, "the rollback loop visits every index below the failing one and returns the error afterwards")
-	def("rollbackKeepsUndeletedInMemory", rollbackKeeps(ic, fds["AllocateInSubnetsAndIPRange"]),
-		"an address whose rollback delete failed with anything but NotFound is put into the allocated table")
-	def("memoryUpdatedAfterAllCreates", memoryAfterAllCreates(ic, fds["AllocateInSubnetsAndIPRange"]),
-		"the cache update loop of AllocateInSubnetsAndIPRange follows the loop with all creates")
-	def("intersectionSeededOnFirstOnly", intersectionSeed(ic, fds["NodeSubnetsByIPRanges"]),
-		"NodeSubnetsByIPRanges seeds the intersection on the first range list only")
-	wfd, err := ic.Fn("", "walkIPRanges")
-	if err != nil {
-		return nil, err
-	}
-	def("walkOverflowSafe", walkSafe(ic, wfd), "walkIPRanges counts in 64 bits, so `<= last` terminates at 255.255.255.255")
-	noStore := true
-	for _, m := range []string{"handleFIPAssign", "handleFIPUnassign"} {
-		if containsStoreCall(sc, fds[m].Body) || strings.Contains(sc.Src(fds[m].Body), "ci.client") {
-			noStore = false
-		}
-	}
-	def("unassignEventChecksReserved", unassignChecksReserved(sc, fds["handleFIPUnassign"]),
-		"handleFIPUnassign only releases a cached record which still carries the reserved label")
-	def("handlersMakeNoStoreCall", noStore, "handleFIPAssign / handleFIPUnassign only touch the caches")
-	cfd, err := sc.Fn("crdIpam", "createFloatingIP")
-	if err != nil {
-		return nil, err
-	}
-	def("createReturnsCreateError", createReturnsCreateError(sc, cfd),
-		"createFloatingIP returns the error of the Create call unconditionally: an existing object is never fetched or taken over")
-	ufd, err := sc.Fn("crdIpam", "updateFloatingIP")
-	if err != nil {
-		return nil, err
-	}
-	ut := sc.Src(ufd.Body)
-	gi, ai, ui := strings.Index(ut, ".Get("), strings.Index(ut, "assign(fip, toUpdate)"), strings.Index(ut, ".Update(")
-	def("updateIsGetThenUpdate", gi >= 0 && ai > gi && ui > ai, "updateFloatingIP = Get, assign, Update (two store calls, labels kept)")
 	b.WriteString("end Galaxy.Generated.Ipam\n")
-	return map[string]string{"Ipam.lean": b.String()}, nil
+	return b.String(), nil
 }
